@@ -21,6 +21,23 @@ CHECKS = {
             "(concrete n <= 6 end-to-end; symbolic n for the arange arguments); Cube maps. Does not decide: float rounding (6/12 "
             "decimals), float32 arange count up to n=4096, 'sampling at coords() returns the image' (torch kernel).",
             "DESIGN.md 4/C01"),
+    "C02": (True, "E5(T1)+E7",
+            "abstract interpretation of Grid construction/maps over a polynomial-ring normal form vs the documented ITK formula; header wiring rule",
+            "Decides, for D in {2,3}: GRID->WORLD is exactly p = o + R diag(s) i with o = c - R diag(s)(n-1)/2 and WORLD->GRID its inverse; "
+            "origin()/origin_() are inverse re-parameterisations of the stored center; both construction routes (origin=, center=) agree; "
+            "Grid.from_sitk/from_reader evaluated on a symbolic header reproduce ITK's index-to-physical formula (row-major direction) and "
+            "return the header's origin/spacing/direction/size; header fields are wired name-to-name in Grid.from_*, Image.sitk and "
+            "image_from_tensor (no transpose, no center/origin mix-up). Does not decide: SimpleITK's own implementation, float32 vs float64.",
+            "DESIGN.md 4/C02"),
+    "C03": (True, "E5(T9)",
+            "abstract interpretation of the grid derivation methods over a polynomial-ring normal form against the operations' index relations",
+            "Decides, with symbolic spacing/center/rotation and enumerated sizes/arguments (plus symbolic sizes for the crop/pad family): "
+            "crop/pad/narrow/center_crop/center_pad/region_of_interest/pool keep spacing, orientation and the world position of every retained "
+            "sample (T_g'[index->world] = T_g[index->world] o index-shift) with the right size; resize/reshape/downsample/upsample/pyramid/"
+            "resample keep center and orientation and corner positions (align_corners) or extent; downsample∘upsample returns the original "
+            "grid; all pyramid levels share the cube extent; internal allclose assertions hold as exact identities. Does not decide: "
+            "assertion failures caused by floating-point rounding; arguments outside the enumerated set.",
+            "DESIGN.md 4/C03"),
 }
 
 NOT_BUILT_REASON = "static check for this property is designed (DESIGN.md section 4) but not yet built in this revision"
